@@ -53,7 +53,9 @@ def kex_records(log, intern):
             aead = "gcm" in a["cipher"]
             need = {"iv": ivlen, "key": keylen, "mac": 0 if aead else P.RFC_MAC_KEY[a["mac"]]}
             rec["need"]["c2s" if c2s else "s2c"] = need
-            eng, st = a["eng"] or (None, None, None), a["set"] or (None, None, False)
+            if a["eng"] is None or a["set"] is None:
+                raise Machinery("the log of the %s %s activation of key exchange %d is incomplete" % (role, d, k))
+            eng, st = a["eng"], a["set"]
             inst = {"key": eng[1], "iv": st[1] if aead else eng[2], "mac": st[0]}
             let, size, ids, ok = {}, {}, {}, {}
             for w in ("iv", "key", "mac"):
@@ -127,7 +129,7 @@ def run(c):
         if c.quick and i % 2 != c.seed % 2 and not cipher.startswith(("3des", "aes128-gcm")):
             continue
         kex = kexes[(i + c.seed) % len(kexes)]
-        if c.quick and kex == "diffie-hellman-group16-sha512":
+        if kex == "diffie-hellman-group16-sha512" and (c.quick or i % 24 != 6):     # slow: a few sessions only
             kex = "ecdh-sha2-nistp521"
         log = []
         KT, KP = P.kd_classes(log)
@@ -139,7 +141,8 @@ def run(c):
                 tc.renegotiate_keys()
                 want = 8
             t_end = time.time() + 10          # the peer may still be switching its inbound keys
-            while sum(1 for e in log if e[0] == "act") < want and time.time() < t_end:
+            # ("set" is the last thing an activation logs)
+            while sum(1 for e in log if e[0] == "set") < want and time.time() < t_end:
                 time.sleep(0.002)
         finally:
             tc.close()
